@@ -225,6 +225,9 @@ OWN_RULES = [
     (r"auto element = forwardQueue_\.insert\(edge\);", "ElemRef element = HEAP_INSERT();", 0), (r"edge\.getParent\(\)->addToForwardQueueOutgoingLookup\(element\);", "LOOKUP2_PUSH(element);", 0),
     (r"edge\.getChild\(\)->addToForwardQueueIncomingLookup\(element\);", "LOOKUP_PUSH(element);", 0),
     (r"!edge\.getChild\(\)->isConsistent\(\) \|\| !objective_->isFinite\(edge\.getChild\(\)->getCostToComeFromGoal\(\)\)", "nondet_bool()", 0), (r"\+\+numInconsistentOrUnconnectedTargets_;", "counter_++;", 0),
+    # a changed body may read keys back / compare costs: reads are arbitrary values, objective predicates arbitrary booleans
+    (r"const auto (\w+) = std::get<\d>\(\(\*it\)->data\);", r"double \1 = nondet_double();", 0), (r"std::get<\d>\(\(\*it\)->data\)", "nondet_double()", 0),
+    (r"objective_->is\w+\((?:[^()]|\([^()]*\))*\)", "nondet_bool()", 0),
 ]
 def _own(name, file, sig):
     return dict(name=name, file=file, sig=sig, rules=OWN_RULES, loops={"allow_uncontracted": True})
